@@ -16,10 +16,10 @@ pub struct Decoded {
 pub struct RealType {
     pub key: &'static str,
     pub decode_full: fn(&[u8]) -> Result<Decoded, ZVTError>,
-    /// (Debug string, remainder length)
-    pub decode: fn(&[u8]) -> Result<(String, usize), ZVTError>,
-    /// decode without formatting (totality sweeps)
-    pub decode_quiet: fn(&[u8]) -> Result<usize, ZVTError>,
+    /// (Debug string, remainder length, offset of the remainder inside the input)
+    pub decode: fn(&[u8]) -> Result<(String, usize, usize), ZVTError>,
+    /// decode without formatting (totality sweeps): (remainder length, offset of the remainder)
+    pub decode_quiet: fn(&[u8]) -> Result<(usize, usize), ZVTError>,
 }
 
 fn decode_full<T>(b: &[u8]) -> Result<Decoded, ZVTError>
@@ -36,22 +36,36 @@ where
     Ok(Decoded { debug: format!("{x:?}"), rest_len: rest.len(), reenc, rt_equal, rt_rest, rt_err })
 }
 
-fn decode<T>(b: &[u8]) -> Result<(String, usize), ZVTError>
+/// offset of `rest` inside `b` (usize::MAX if it does not lie inside the input; an empty
+/// remainder has no meaningful address and is placed at the end)
+fn offset_in(b: &[u8], rest: &[u8]) -> usize {
+    if rest.is_empty() {
+        return b.len();
+    }
+    let (bp, rp) = (b.as_ptr() as usize, rest.as_ptr() as usize);
+    if rp >= bp && rp + rest.len() <= bp + b.len() {
+        rp - bp
+    } else {
+        usize::MAX
+    }
+}
+
+fn decode<T>(b: &[u8]) -> Result<(String, usize, usize), ZVTError>
 where
     T: ZvtSerializer + Debug,
     encoding::Default: encoding::Encoding<T>,
 {
     let (x, rest) = T::zvt_deserialize(b)?;
-    Ok((format!("{x:?}"), rest.len()))
+    Ok((format!("{x:?}"), rest.len(), offset_in(b, rest)))
 }
 
-fn decode_quiet<T>(b: &[u8]) -> Result<usize, ZVTError>
+fn decode_quiet<T>(b: &[u8]) -> Result<(usize, usize), ZVTError>
 where
     T: ZvtSerializer,
     encoding::Default: encoding::Encoding<T>,
 {
     let (_x, rest) = T::zvt_deserialize(b)?;
-    Ok(rest.len())
+    Ok((rest.len(), offset_in(b, rest)))
 }
 
 macro_rules! reg {
